@@ -83,6 +83,9 @@ func (x *Extractor) eqComparator(n ast.Node, field string) string {
 }
 
 func (x *Extractor) genEquals() string {
+	if err := x.typecheck(); err != nil {
+		return header + "-- typecheck failed: " + err.Error() + "\n#check (APModel.Generated.typecheckFailed : Nat)\n"
+	}
 	var names []string
 	for k := range x.funcs {
 		if strings.HasSuffix(k, ".Equals") {
